@@ -82,7 +82,7 @@ fn run_op(op: &Op, e: &Entry, spec: &SetSpec, sc: &ScoreSpec, states: &[ScoreSta
             dump(&api::strains_for_mode(d, map, *m))
         }
         Op::GradualDifficulty(m) => {
-            let d = spec.without_passed().to_difficulty(*m);
+            let d = spec.for_gradual().to_difficulty(*m);
             match api::gradual(d, map, *m) {
                 Err(e) => format!("{e:?}"),
                 Ok(g) => {
@@ -109,7 +109,7 @@ fn run_op(op: &Op, e: &Entry, spec: &SetSpec, sc: &ScoreSpec, states: &[ScoreSta
             }
         }
         Op::GradualPerformance(m) => {
-            let d = spec.without_passed().to_difficulty(*m);
+            let d = spec.for_gradual().to_difficulty(*m);
             match api::gradual_perf(d, map, *m) {
                 Err(e) => format!("{e:?}"),
                 Ok(mut g) => states
